@@ -285,8 +285,12 @@ HOSTILE = [
     ("false", b"false"), ("empty", b""), ("space", b" "), ("text", b"hello"), ("non-utf8", b"\xff\xfe{}"), ("truncated", b'{"a":1'),
     ("trailing-garbage", b'{"a":1}x'), ("two-values", b'{"a":1}{"b":2}'), ("array-of-objects", b'[{"a":1}]'), ("nested-array", b"[[[[]]]]"),
 ("single-quotes", b"{'a':1}"), ("number-string", b'"12"'), ("neg", b"-1"), ("big", b"1e400"),
+    # octets that are not text in the encoding json.loads detects (UnicodeDecodeError inside the parser)
+    ("bad-utf8-in-string", b'{"a":"\xff"}'), ("lone-continuation", b"\x80"), ("bad-utf8-in-name", b'{"\xc3":1}'),
+    ("utf16-odd-length", b"\xfe\xff\x00{\x00"), ("utf32-truncated", b"\x00\x00\xfe\xff\x00\x00\x00"), ("utf16-lone-surrogate", b"\xff\xfe\x00\xd8"),
+    ("overlong-nul", b'{"a":"\xc0\x80"}'), ("latin1-text", "{\"a\":\"caf\xe9\"}".encode("latin-1")),
 ]
-OPEN_PAYLOADS = [("nan-object", b'{"a":NaN}'), ("bom-object", b'\xef\xbb\xbf{"a":1}'), ("dup-keys", b'{"a":1,"a":2}'), ("infinity", b"Infinity"),
+OPEN_PAYLOADS = [("cesu-surrogate", b'{"a":"\xed\xa0\x80"}'), ("nan-object", b'{"a":NaN}'), ("bom-object", b'\xef\xbb\xbf{"a":1}'), ("dup-keys", b'{"a":1,"a":2}'), ("infinity", b"Infinity"),
                  ("utf16-object", '{"a":1}'.encode("utf-16"))]
 OBJECT_PAYLOADS = [("object", b'{"a":1}'), ("empty-object", b"{}"), ("ws-object", b' \r\n{"a" : [1, {"b": null}]}\n'), ("unicode", '{"é":"世界"}'.encode())]
 
